@@ -580,6 +580,8 @@ func ToEntry(n Node) (e *Entry) {
 	if e := ms.getEntryCache(n); e != nil {
 		return e
 	}
+	// (Runs last: the groupings defined in what has just been converted.)
+	defer ms.convertDefined()
 	if _, ok := n.(*Grouping); ok {
 		if !ms.enterEntry(n) {
 			return newError(n, "grouping %s uses itself", n.NName())
@@ -797,9 +799,9 @@ func ToEntry(n Node) (e *Entry) {
 			}
 		case "grouping":
 			for _, a := range fv.Interface().([]*Grouping) {
-				// We just want to parse the grouping to
-				// collect errors.
-				e.importErrors(ToEntry(a))
+				// We just want to parse the grouping to collect
+				// errors -- as soon as no grouping is under way.
+				ms.deferDefined(e, a)
 			}
 		case "import":
 			// Import only makes types and such available.
